@@ -6,7 +6,7 @@ import ChessVerif.Proofs.SearchFrame
 namespace ChessVerif
 namespace Search
 
-variable {σ π : Type}
+variable {σ π : Type} [PsInv σ]
 
 /-! ### the abort fallback -/
 
@@ -43,18 +43,18 @@ def Asp.st : Asp σ → St σ
   | .ok _ _ _ s => s
 
 theorem aspiration_spec (c : Comp σ π) (L : Limits) {Good : Board → Prop} (hl : Laws c Good) (fuel : Nat) (idD : Int) :
-    ∀ (n : Nat) (alpha beta factor : Score) (s : St σ), Good s.board →
+    ∀ (n : Nat) (alpha beta factor : Score) (s : St σ), Good s.board → PsInv.ok s.ps →
       Frame L s (aspiration c L fuel idD n alpha beta factor s).st ∧
         (∀ al be sa s', aspiration c L fuel idD n alpha beta factor s = .ok al be sa s' →
           s'.aborted = false ∧ LegalLine c.keys s.board (s'.pv.row 0)) := by
   intro n
   induction n with
   | zero =>
-    intro alpha beta factor s hg
+    intro alpha beta factor s hg _
     exact ⟨⟨mono_outOfFuel L s, rfl, rfl, rfl⟩, fun _ _ _ _ h => by simp [aspiration] at h⟩
   | succ n ih =>
-    intro alpha beta factor s hg
-    have hab := alphaBeta_spec c L hl fuel alpha beta idD 0 .pv s hg (Int.le_refl 0)
+    intro alpha beta factor s hg hok
+    have hab := alphaBeta_spec c L hl fuel alpha beta idD 0 .pv s hg hok (Int.le_refl 0)
     simp only [aspiration]
     generalize alphaBeta c L fuel alpha beta idD 0 .pv s = r at hab ⊢
     obtain ⟨hf, _, hline⟩ := hab
@@ -72,10 +72,11 @@ theorem aspiration_spec (c : Comp σ π) (L : Limits) {Good : Board → Prop} (h
         refine ⟨by rw [← hat]; simpa using hna, ?_⟩
         rw [hap]; exact hline
       · have hg2 : Good as.2.board := by rw [hf2.board]; exact hg
+        have hok2 : PsInv.ok as.2.ps := hf2.mono.ps_ok hok
         constructor
-        · exact hf2.trans (ih _ _ _ _ hg2).1
+        · exact hf2.trans (ih _ _ _ _ hg2 hok2).1
         · intro al be sa s' h
-          have := (ih _ _ _ _ hg2).2 al be sa s' h
+          have := (ih _ _ _ _ hg2 hok2).2 al be sa s' h
           rw [hf2.board] at this
           exact this
 
@@ -93,6 +94,7 @@ structure IDInv (K : Keys) (L : Limits) (b : Board) (s0 : St σ) (v : IDVars) (s
   out_legal : ∀ i ∈ v.out, LegalLine K b i.pv
   fuel_mono : s0.fuelOut = true → s.fuelOut = true
   anomaly_mono : s0.anomaly = true → s.anomaly = true
+  ps_ok : PsInv.ok s.ps
 
 /-- what `idLoop` guarantees about its result. -/
 structure IDPost (K : Keys) (L : Limits) (b : Board) (s0 : St σ) (r : Result σ) : Prop where
@@ -105,6 +107,7 @@ structure IDPost (K : Keys) (L : Limits) (b : Board) (s0 : St σ) (r : Result σ
   out_legal : ∀ i ∈ r.out, LegalLine K b i.pv
   fuel_mono : s0.fuelOut = true → r.st.fuelOut = true
   anomaly_mono : s0.anomaly = true → r.st.anomaly = true
+  ps_ok : PsInv.ok r.st.ps
 
 theorem legalLine_head {K : Keys} {b : Board} {m : Move} {rest : List Move} (h : LegalLine K b (m :: rest)) :
     m ∈ MoveGen.playable K b := by cases h; assumption
@@ -121,13 +124,13 @@ theorem idLoop_spec (c : Comp σ π) (L : Limits) (clock : Clock) {Good : Board 
       IDPost c.keys L b s0 (idLoop c L clock fuel n idD v s) := by
   intro n
   induction n with
-  | zero => intro idD v s h; exact ⟨h.board, h.hstack, h.frames, h.nodes, h.move_ok, h.ponder_ok, h.out_legal, h.fuel_mono, h.anomaly_mono⟩
+  | zero => intro idD v s h; exact ⟨h.board, h.hstack, h.frames, h.nodes, h.move_ok, h.ponder_ok, h.out_legal, h.fuel_mono, h.anomaly_mono, h.ps_ok⟩
   | succ n ih =>
     intro idD v s h
     simp only [idLoop]
     split
-    · exact ⟨h.board, h.hstack, h.frames, h.nodes, h.move_ok, h.ponder_ok, h.out_legal, h.fuel_mono, h.anomaly_mono⟩
-    · have hasp := aspiration_spec c L hl fuel idD fuel v.alpha v.beta 1 s (by rw [h.board]; exact hg)
+    · exact ⟨h.board, h.hstack, h.frames, h.nodes, h.move_ok, h.ponder_ok, h.out_legal, h.fuel_mono, h.anomaly_mono, h.ps_ok⟩
+    · have hasp := aspiration_spec c L hl fuel idD fuel v.alpha v.beta 1 s (by rw [h.board]; exact hg) h.ps_ok
       generalize aspiration c L fuel idD fuel v.alpha v.beta 1 s = a at hasp ⊢
       cases a with
       | aborted s' =>
@@ -150,12 +153,14 @@ theorem idLoop_spec (c : Comp σ π) (L : Limits) (clock : Clock) {Good : Board 
         · have hfl := firstLegal_spec c hl s'.board (by rw [hb]; exact hg) (MoveGen.gen s'.board) (fun _ h => h)
           refine ⟨by simpa using hfl.1.trans hb, by simpa using hf.hstack.trans h.hstack,
             by simpa using hf.frames.trans h.frames, hn, ?_, Or.inl rfl, hout,
-            fun h' => hf.mono.fuel_mono (h.fuel_mono h'), fun h' => hf.mono.anomaly_mono (h.anomaly_mono h')⟩
+            fun h' => hf.mono.fuel_mono (h.fuel_mono h'), fun h' => hf.mono.anomaly_mono (h.anomaly_mono h'),
+            hf.mono.ps_ok h.ps_ok⟩
           rcases hfl.2 with hp | ⟨h0, _⟩
           · right; rw [← hb]; exact hp
           · left; exact h0
         · exact ⟨hb, hf.hstack.trans h.hstack, hf.frames.trans h.frames, hn, h.move_ok, h.ponder_ok, hout,
-            fun h' => hf.mono.fuel_mono (h.fuel_mono h'), fun h' => hf.mono.anomaly_mono (h.anomaly_mono h')⟩
+            fun h' => hf.mono.fuel_mono (h.fuel_mono h'), fun h' => hf.mono.anomaly_mono (h.anomaly_mono h'),
+            hf.mono.ps_ok h.ps_ok⟩
       | ok al be sample s' =>
         obtain ⟨hf, hok⟩ := hasp
         simp only [Asp.st] at hf
@@ -191,22 +196,25 @@ theorem idLoop_spec (c : Comp σ π) (L : Limits) (clock : Clock) {Good : Board 
           · exact h.out_legal i hi
         split
         · exact ⟨hb, hf.hstack.trans h.hstack, hf.frames.trans h.frames, hn, hmove, hponder, hout,
-            fun h' => hf.mono.fuel_mono (h.fuel_mono h'), fun h' => hf.mono.anomaly_mono (h.anomaly_mono h')⟩
+            fun h' => hf.mono.fuel_mono (h.fuel_mono h'), fun h' => hf.mono.anomaly_mono (h.anomaly_mono h'),
+            hf.mono.ps_ok h.ps_ok⟩
         · apply ih
           exact ⟨hb, hf.hstack.trans h.hstack, hf.frames.trans h.frames, hn,
             Int.le_trans h.nodes_mono hf.mono.nodes_mono, hmove, hponder, hout,
-            fun h' => hf.mono.fuel_mono (h.fuel_mono h'), fun h' => hf.mono.anomaly_mono (h.anomaly_mono h')⟩
+            fun h' => hf.mono.fuel_mono (h.fuel_mono h'), fun h' => hf.mono.anomaly_mono (h.anomaly_mono h'),
+            hf.mono.ps_ok h.ps_ok⟩
 
 /-! ### `go` -/
 
 theorem go_post (c : Comp σ π) (L : Limits) (clock : Clock) {Good : Board → Prop} (hl : Laws c Good) (fuel : Nat)
-    (e : Engine σ) (b : Board) (hg : Good b) (nodes0 : Int) :
+    (e : Engine σ) (b : Board) (hg : Good b) (hok : PsInv.ok e.ps) (nodes0 : Int) :
     IDPost c.keys L b (goInit L e b nodes0) (go c L clock fuel e b nodes0) := by
   have h := idLoop_spec c L clock hl fuel b hg (goInit L e b nodes0) 64 0
     { alpha := -Inf - 1, beta := Inf + 1, score := 0, move := 0, ponder := 0, reads := 0, ppolls := 0, out := [] }
     (goInit L e b nodes0)
-    ⟨rfl, rfl, rfl, fun _ h => h, Int.le_refl _, Or.inl rfl, Or.inl rfl, (fun _ h => by cases h), id, id⟩
-  exact ⟨h.board, h.hstack, h.frames, h.nodes, h.move_ok, h.ponder_ok, h.out_legal, h.fuel_mono, h.anomaly_mono⟩
+    ⟨rfl, rfl, rfl, fun _ h => h, Int.le_refl _, Or.inl rfl, Or.inl rfl, (fun _ h => by cases h), id, id, hok⟩
+  exact ⟨h.board, h.hstack, h.frames, h.nodes, h.move_ok, h.ponder_ok, h.out_legal, h.fuel_mono, h.anomaly_mono,
+    hl.ok_nextGen _ h.ps_ok⟩
 
 end Search
 end ChessVerif
